@@ -1014,7 +1014,8 @@ def outputs (P : Prog) : St → List Op → List Outcome
 
 /-- the body language of `Model/Cycle.lean`: `ite i` there tests input `i` ≠ 0, so the low bit of
     input `i` becomes a shadow input (slot `2 i + 1`; the value itself is slot `2 i`), the same
-    idea as in `checks/cycle_common.py: translate_case`; `add` and `gate` are outside that language. -/
+    idea as in `checks/cycle_common.py: translate_case`; `gate` maps to the value-controlled gate
+    of that language, `add` is outside it. -/
 def toCycleExpr : Expr → Cycle.Expr
   | .const c => .const c
   | .input i => .input (2 * i)
@@ -1023,7 +1024,7 @@ def toCycleExpr : Expr → Cycle.Expr
   | .inter a b => .inter (toCycleExpr a) (toCycleExpr b)
   | .ite i a b => .ite (2 * i + 1) (toCycleExpr a) (toCycleExpr b)
   | .add _ _ => .const 0
-  | .gate _ _ => .const 0
+  | .gate c a => .gate (toCycleExpr c) (toCycleExpr a)
 
 def toCycle (P : Prog) : Cycle.Prog := ⟨P.nodes.map (fun nd => ⟨nd.strat, toCycleExpr nd.body⟩)⟩
 
@@ -1049,12 +1050,13 @@ def finalVal (s : St) (j : Nat) : Option Nat :=
 
 def finalEnv (s : St) : Nat → Nat := fun j => (finalVal s j).getD 0
 
-/-- the nodes reachable from the nodes `R` in `k` steps of the call graph at the current inputs. -/
+/-- the nodes reachable from the nodes `R` in `k` steps of the call graph at the current inputs
+    (gates decided by the finalised values). -/
 def reachFrom (P : Prog) (s : St) : Nat → List Nat → List Nat
   | 0, R => R
   | k + 1, R =>
     reachFrom P s k (R.foldl (fun acc x =>
-      (Cycle.callees (envI s.inp) (toCycleExpr (P.node x).body)).foldl
+      (Cycle.callees (envI s.inp) (finalEnv s) (toCycleExpr (P.node x).body)).foldl
         (fun acc c => if acc.contains c then acc else acc ++ [c]) acc) R)
 
 /-- node `x` of the certified set `R`: it is finalised, its callees (at the current inputs)
@@ -1063,7 +1065,8 @@ def closedAt (P : Prog) (s : St) (R : List Nat) (x : Nat) : Bool :=
   match finalVal s x with
   | none => false
   | some v =>
-    (Cycle.callees (envI s.inp) (toCycleExpr (P.node x).body)).all (fun c => R.contains c) &&
+    (Cycle.callees (envI s.inp) (finalEnv s) (toCycleExpr (P.node x).body)).all
+      (fun c => R.contains c) &&
     v == Cycle.evalExpr (envI s.inp) (finalEnv s) (toCycleExpr (P.node x).body)
 
 /-- the finalised memos of the nodes `R` are closed under callees and solve the equations at
@@ -1076,8 +1079,10 @@ def fbClosedAt (P : Prog) (s : St) (R : List Nat) (x : Nat) : Bool :=
   match finalVal s x with
   | none => false
   | some v =>
-    (Cycle.callees (envI s.inp) (toCycleExpr (P.node x).body)).all (fun c => R.contains c) &&
-    (if Cycle.onCycle (toCycle P) (envI s.inp) x then v == Cycle.fallbackValue (toCycle P) x
+    (Cycle.callees (envI s.inp) (finalEnv s) (toCycleExpr (P.node x).body)).all
+      (fun c => R.contains c) &&
+    (if Cycle.onCycle (toCycle P) (envI s.inp) (finalEnv s) x
+     then v == Cycle.fallbackValue (toCycle P) x
      else v == Cycle.evalExpr (envI s.inp) (finalEnv s) (toCycleExpr (P.node x).body))
 
 def fbClosedOn (P : Prog) (s : St) (R : List Nat) : Bool := R.all (fbClosedAt P s R)
